@@ -147,8 +147,13 @@ ApplyTr(t, s) == [a \in 1..6 |-> t.g[a] * s[t.m[a]]]
 IdPerm == [i \in 1..3 |-> i]
 \* permutations that keep a stress of dimension n inside dimension n (2D: the third axis is fixed)
 PermsOfDim(n) == IF n = 2 THEN {p \in Perms3 : p[3] = 3} ELSE Perms3
-Group(c) == (IF Isotropic(c) THEN {PermTr(p) : p \in PermsOfDim(c.n) \ {IdPerm}} ELSE {})
-            \cup (IF c.n = 1 THEN {} ELSE IF c.n = 2 THEN {ReflTr(1)} ELSE {ReflTr(1), ReflTr(2), ReflTr(3)})
+\* constant definitions (evaluated once by TLC)
+PermGroup3 == {PermTr(p) : p \in Perms3 \ {IdPerm}}
+PermGroup2 == {PermTr(p) : p \in PermsOfDim(2) \ {IdPerm}}
+ReflGroup3 == {ReflTr(1), ReflTr(2), ReflTr(3)}
+ReflGroup2 == {ReflTr(1)}
+Group(c) == (IF Isotropic(c) THEN (IF c.n = 2 THEN PermGroup2 ELSE PermGroup3) ELSE {})
+            \cup (IF c.n = 1 THEN {} ELSE IF c.n = 2 THEN ReflGroup2 ELSE ReflGroup3)
 
 ---------------------------------------------------------------------------------
 (* (3) singular points.  Pressure-insensitive criteria are not differentiable on the hydrostatic axis (seq = 0);
@@ -189,7 +194,8 @@ Region(c) ==
      criteria defined by a scalar Newton iteration stopped at |S| < 1e-14 or |d seq| < seps / 10 -> class 2 (1e-9);
      eigen-based criteria at (nearly) coincident principal stresses inherit the accuracy of the default analytical
      eigen solver, documented as "more efficient but less accurate" (docs/web/tensors.md; about sqrt(epsilon) on
-     the eigenvalues of a double root, property C03) -> class 3 (1e-7), one more for exponents of the order of 100;
+     the eigenvalues of a double root, property C03) -> class 3 (1e-7), one more for exponents above 4 (the error is
+     multiplied by a - 1);
    - finite differences of the real code instantiated in long double (fourth-order stencil, step 2^-12 of the
      stress unit: truncation h^4 f^(5) / 30 ~ 1e-16 x derivative scale, rounding 1e-19 / h): class 2 (1e-9) for the
      normal and class 3 (1e-7) for the second derivative (derivative scales up to 1e3 for exponents 6..8 and for
@@ -199,11 +205,18 @@ Region(c) ==
 Newton(c) == c.crit \in {"gtn", "rtb"}
 Large(c) == EigenBased(c) /\ c.par[1] > 8 * c.pd
 TolAlg(c) == IF Newton(c) THEN 2
-             ELSE IF EigenBased(c) /\ Corner(c) THEN (IF Large(c) THEN 4 ELSE 3)
+             ELSE IF EigenBased(c) /\ Corner(c) THEN (IF c.par[1] > 4 * c.pd THEN 4 ELSE 3)
              ELSE IF Large(c) THEN 2 ELSE 1
 TolFDn(c) == IF EigenBased(c) /\ Corner(c) THEN (IF Large(c) THEN 4 ELSE 3) ELSE IF c.crit = "mohrcoulomb" THEN 3 ELSE 2
 TolFDdn(c) == IF EigenBased(c) /\ Corner(c) THEN 4 ELSE 3
 UsesFDdn(c) == ~(Large(c) /\ Corner(c))
+\* the Abbo-Sloan rounding of Mohr-Coulomb is only C1 across |lode| = lodeT: finite differences are not used when the
+\* stencil can straddle that surface.  sin^2(3 lode) = 2 D3^2 / M2^3, in percent: sin^2(75 deg) = 93.3, sin^2(87 deg) = 99.7
+SinSq3LodePercent(s) == (200 * Sq(D3(s))) \div Cube(M2(s))
+NearTransition(c) == /\ c.crit = "mohrcoulomb" /\ M2(c.s) > 0
+                     /\ LET r == SinSq3LodePercent(c.s) t == c.par[3] IN
+                        IF 2 * t >= 57 * c.pd THEN r >= 99 ELSE r \in 92..94
+FDValid(c) == ~NearTransition(c)
 TolPorosity == 3
 
 ---------------------------------------------------------------------------------
